@@ -1249,7 +1249,7 @@ def audit(out: OutputBuffer, aconf: AuditConf, sshv: Optional[int] = None, print
                       'instead received unknown message ({2})'
                 err = fmt.format(err_pair[0], err_pair[1], packet_type)
     if err is not None:
-        output(out, aconf, banner, header)
+        output(out, aconf, banner, header, print_target=print_target)  # In a multi-target run, say which target this error belongs to.
         out.fail(err)
         return exitcodes.CONNECTION_ERROR
     if sshv == 1:
